@@ -963,11 +963,23 @@ func callBuiltin(caller *frame, callpos token.Pos, fn *ssa.Builtin, args []value
 		}
 		if isStrVal(args[1]) {
 			// append([]byte, ...string) []byte
+			d := args[0].([]value)
+			if n := len(strBytes(args[1])); R.raceOn() && n > 0 && len(d)+n <= cap(d) {
+				R.raceSlice(d[len(d):len(d)+n], true, caller, nil) // written in place
+			}
 			return append(args[0].([]value), strBytes(args[1])...)
 		}
 		// append([]T, ...[]T) []T (struct and array elements are values: copy them)
 		src := args[1].([]value)
 		dst := args[0].([]value)
+		if R.raceOn() {
+			R.raceSlice(src, false, caller, nil)
+			if len(src) > 0 && len(dst)+len(src) <= cap(dst) {
+				R.raceSlice(dst[len(dst):len(dst)+len(src)], true, caller, nil) // written in place: visible to every alias
+			} else {
+				R.raceSlice(dst, false, caller, nil) // reallocation reads the old elements
+			}
+		}
 		for _, e := range src {
 			dst = append(dst, copyVal(e))
 		}
@@ -983,6 +995,12 @@ func callBuiltin(caller *frame, callpos token.Pos, fn *ssa.Builtin, args []value
 		if len(sv) < n {
 			n = len(sv)
 		}
+		if R.raceOn() {
+			if !isStrVal(args[1]) {
+				R.raceSlice(sv[:n], false, caller, nil)
+			}
+			R.raceSlice(d[:n], true, caller, nil)
+		}
 		tmp := make([]value, n)
 		for i := 0; i < n; i++ {
 			tmp[i] = copyVal(sv[i])
@@ -996,6 +1014,9 @@ func callBuiltin(caller *frame, callpos token.Pos, fn *ssa.Builtin, args []value
 	case "delete": // delete(map[K]value, K)
 		switch m := args[0].(type) {
 		case *smap:
+			if R.raceOn() && m != nil {
+				R.raceMap(m, true, caller, nil)
+			}
 			m.delete(args[1])
 		default:
 			panic(fmt.Sprintf("illegal map type: %T", m))
